@@ -850,3 +850,26 @@ func TestC46(t *testing.T) {
 		c46Check(rt, rec, c46DrawCase(rt))
 	})
 }
+
+// FuzzC46 (thorough tier): raw streams from the native fuzzer, same semantic
+// oracle (reference classifier + c46Check).
+func FuzzC46(f *testing.F) {
+	rec := ev.New("C46", "native fuzz: raw stream bytes, one delivery cut, limit selector, call order; oracle = reference classifier")
+	f.Add([]byte("PROXY TCP4 192.0.2.1 198.51.100.7 1000 443\r\nGET / HTTP/1.0\r\n\r\n"), uint16(7), uint8(0), true)
+	f.Add(append(c46WriteV2(0x21, 0x11, c46Addr4Block([4]byte{1, 2, 3, 4}, [4]byte{5, 6, 7, 8}, 9, 10), c46TLV(4, []byte{0, 0})), "hello"...), uint16(14), uint8(2), false)
+	f.Fuzz(func(t *testing.T, data []byte, cut uint16, limitSel uint8, addrFirst bool) {
+		if len(data) > 1<<16 {
+			return
+		}
+		c := &c46Case{Gen: "fuzz", HdrLenGen: 0, Tail: 1 << 20, ReadSizes: []int{4096, 1},
+			Limit: c46Limits[int(limitSel)%len(c46Limits)], AddrFirst: addrFirst}
+		c.stream = data
+		c.StreamHex = hex.EncodeToString(data)
+		if len(data) > 0 {
+			if p := int(cut) % len(data); p > 0 {
+				c.Pieces = []int{p}
+			}
+		}
+		c46Check(t, rec, c)
+	})
+}
